@@ -2,6 +2,8 @@
 
   * the length of the setjmp buffer array (src/Platforms/Gcc/UtestPlatform.cpp),
   * the expression of TestResult::isFailure (include/CppUTest/TestResult.h),
+  * the verdict condition of TestOutput::printTestsEnded (src/CppUTest/TestOutput.cpp): the expression
+    `const bool isFailure = ...;` that decides between "Errors (" and "OK (",
   * the return expression of CommandLineTestRunner::runAllTests,
 
 and checks the shape of the loop-free functions the hand-written model mirrors
@@ -15,6 +17,7 @@ PLATFORM = "src/Platforms/Gcc/UtestPlatform.cpp"
 RESULT_H = "include/CppUTest/TestResult.h"
 RESULT_CPP = "src/CppUTest/TestResult.cpp"
 RUNNER = "src/CppUTest/CommandLineTestRunner.cpp"
+OUTPUT = "src/CppUTest/TestOutput.cpp"
 
 # ------------------------------------------------------------------ a tiny C expression translator
 
@@ -176,6 +179,8 @@ class ExprTranslator:
             if self.peek() == ("op", "("):
                 self.next()
                 self.expect(")")
+                if name == "isFailure":
+                    return ("(isFailure failureCount runCount ignoredCount)", "bool")
                 if name not in GETTERS:
                     raise TranslateError("call of `%s()` is outside the translated subset" % name)
                 name = GETTERS[name]
@@ -241,6 +246,31 @@ def extract():
     if norm(body) != "output_.printFailure(failure);failureCount_++;":
         raise TranslateError("shape of TestResult::addFailure changed: " + norm(body)[:160])
 
+    # TestOutput::printTestsEnded: the verdict condition is regenerated, the rest is shape-checked
+    outp = strip_comments(read(OUTPUT))
+    body = function_body(outp, r"void\s+TestOutput::printTestsEnded\s*\(\s*const\s+TestResult\s*&\s*result\s*\)\s*\{")
+    m = re.search(r"const\s+bool\s+isFailure\s*=\s*([^;]*);", body)
+    if not m:
+        raise TranslateError("`const bool isFailure = ...;` not found in TestOutput::printTestsEnded")
+    verdict_c = m.group(1)
+    verdict_src = re.sub(r"\bresult\s*\.\s*", "", verdict_c)
+    verdict = translate_expr(verdict_src, {"failureCount", "runCount", "ignoredCount"})
+    verdict_text = ExprTranslator.as_bool(verdict)
+    rest = body[:m.start()] + "@VERDICT@" + body[m.end():]
+    rest = re.sub(r"const\s+size_t\s+failureCount\s*=\s*result\.getFailureCount\(\)\s*;", "@FC@", rest)
+    want_rest = ('print("\\n");@A@@B@if(isFailure){if(color_){print("\\033[31;1m");}print("Errors(");if(failureCount>0){print(failureCount);'
+                 'print("failures,");}else{print("rannothing,");}}else{if(color_){print("\\033[32;1m");}print("OK(");}'
+                 'print(result.getTestCount());print("tests,");print(result.getRunCount());print("ran,");'
+                 'print(result.getCheckCount());print("checks,");print(result.getIgnoredCount());print("ignored,");'
+                 'print(result.getFilteredOutCount());print("filteredout,");print(result.getTotalExecutionTime());print("ms)");'
+                 'if(color_){print("\\033[m");}if(isFailure&&failureCount==0){print("\\nNote:testrunfailedbecausenotestswererunorignored.'
+                 'Assumingsomethingwentwrong.""Thisoftenhappensbecauseoflinkingerrorsortyposintestfilter.");}print("\\n\\n");dotCount_=0;')
+    got = norm(rest)
+    ok_shapes = [want_rest.replace("@A@", "@VERDICT@").replace("@B@", "@FC@"),
+                 want_rest.replace("@A@", "@FC@").replace("@B@", "@VERDICT@")]
+    if got not in ok_shapes:
+        raise TranslateError("shape of TestOutput::printTestsEnded changed: " + got[:400])
+
     run = strip_comments(read(RUNNER))
     body = function_body(run, r"int\s+CommandLineTestRunner::runAllTests\s*\(\s*\)\s*\{")
     rets = re.findall(r"return\s+([^;]*);", body)
@@ -265,7 +295,7 @@ def extract():
         if not re.search(r"size_t\s+%s\s*=\s*0\s*;" % var, body):
             raise TranslateError("`size_t %s = 0;` not found" % var)
 
-    text = HEADER % ("translate/extract_runner.py", ", ".join([PLATFORM, RESULT_H, RUNNER]))
+    text = HEADER % ("translate/extract_runner.py", ", ".join([PLATFORM, RESULT_H, OUTPUT, RUNNER]))
     text += "namespace Gen.Runner\n"
     text += "/-- `static jmp_buf test_exit_jmp_buf[N]` -/\n"
     text += "def jmpBufLen : Nat := %d\n" % buflen
@@ -274,6 +304,8 @@ def extract():
     text += "  if n % 4294967296 < 2147483648 then Int.ofNat (n % 4294967296) else Int.ofNat (n % 4294967296) - 4294967296\n"
     text += "/-- `TestResult::isFailure`: return %s; -/\n" % " ".join(is_failure_c.split())
     text += "def isFailure (failureCount runCount ignoredCount : Nat) : Bool :=\n  %s\n" % isf_text
+    text += "/-- `TestOutput::printTestsEnded`: const bool isFailure = %s; -/\n" % " ".join(verdict_c.split())
+    text += "def summaryIsFailure (failureCount runCount ignoredCount : Nat) : Bool :=\n  %s\n" % verdict_text
     text += "/-- `CommandLineTestRunner::runAllTests`: return %s; -/\n" % " ".join(ret_c.split())
     text += "def returnValue (failedTestCount failedExecutionCount : Nat) : Int :=\n  %s\n" % ret[0]
     text += "end Gen.Runner\n"
